@@ -135,9 +135,19 @@ pub fn with<R>(f: impl FnOnce(&mut HalState) -> R) -> R {
     HAL.with(|h| f(&mut h.borrow_mut()))
 }
 
+thread_local! {
+    static NEXT_INPLACE: std::cell::Cell<bool> = const { std::cell::Cell::new(false) };
+}
+
+/// the case about to start (next `reset`) runs on a platform that shares buffers in place
+pub fn inplace_next(b: bool) {
+    NEXT_INPLACE.with(|c| c.set(b));
+}
+
 /// Resets the platform for a new case and frees all host memory of the previous one.
 pub fn reset() {
     crate::wake::reset();
+    let inplace = NEXT_INPLACE.with(|c| c.replace(false));
     with(|h| {
         for r in h.dma.drain(..) {
             // SAFETY: allocated with this layout in `dma_alloc`.
@@ -145,6 +155,7 @@ pub fn reset() {
         }
         *h = HalState::default();
         h.poison = 0xA5;
+        h.inplace = inplace;
     });
 }
 
